@@ -212,6 +212,46 @@ fn sigmf_case(rng: &mut Rng, idx: usize, dir: &std::path::Path) -> String {
     check_repeated("sigmf", &format!("#{idx} len={len} repeat={rep}"), &data, rep, &got, eof, late, panic)
 }
 
+/// SigMF *archive* (tar: the data member sits at a non-zero offset) with repetition.
+fn sigmf_archive_case(rng: &mut Rng, idx: usize, dir: &std::path::Path) -> String {
+    let rep = *rng.pick(&[0u64, 1, 2, 2, 3, INF]);
+    let len = *rng.pick(&[0usize, 1, 5, 100, 1023, 1025, 2500, 5000]);
+    let data: Vec<u64> = gen_data(len, rng.next() >> 8, 256, &[]);
+    let databytes: Vec<u8> = data.iter().map(|v| *v as u8).collect();
+    let meta = br#"{"global": {"core:datatype": "ru8_le", "core:version": "1.1.0"}, "captures": [], "annotations": []}"#.to_vec();
+    let mut members: Vec<(String, Vec<u8>)> = vec![];
+    for k in 0..rng.range(0, 2) {
+        members.push((format!("notes{k}.txt"), (0..rng.range(0, 1500)).map(|_| rng.below(256) as u8).collect()));
+    }
+    members.push(("rec.sigmf-meta".to_string(), meta));
+    members.push(("rec.sigmf-data".to_string(), databytes));
+    if rng.chance(1, 2) {
+        let j = 1.min(members.len() - 1);
+        members.swap(0, j);
+    }
+    let path = dir.join(format!("arch{idx}.sigmf"));
+    {
+        let f = std::fs::File::create(&path).unwrap();
+        let mut b = tar::Builder::new(f);
+        for (name, content) in &members {
+            let mut h = tar::Header::new_gnu();
+            h.set_size(content.len() as u64);
+            h.set_mode(0o644);
+            h.set_cksum();
+            b.append_data(&mut h, name, &content[..]).unwrap();
+        }
+        b.finish().unwrap();
+    }
+    let built = quiet(|| SigMFSourceBuilder::<u8>::new(path.clone()).repeat(repeat_of(rep)).build());
+    let (b, o) = match built {
+        Ok(Ok(x)) => x,
+        Ok(Err(e)) => return format!("!src sigmf-archive #{idx} len={len} repeat={rep}\tFAIL cannot open: {e}"),
+        Err(p) => return format!("!src sigmf-archive #{idx} len={len} repeat={rep}\tFAIL panic in build: {p}"),
+    };
+    let (got, eof, late, panic) = run_source::<u8>(Box::new(b), o, rng, if rep == INF { 3 * len.max(1) + 10 } else { usize::MAX });
+    check_repeated("sigmf-archive", &format!("#{idx} len={len} repeat={rep}"), &data, rep, &got, eof, late, panic)
+}
+
 pub fn run(args: &[String]) -> Vec<String> {
     let seed = arg_usize(args, "--seed", 1) as u64;
     let cases = arg_usize(args, "--cases", 300);
@@ -230,6 +270,8 @@ pub fn run(args: &[String]) -> Vec<String> {
         out.push(file_case(&mut r, i, dir.path()));
         let mut r = rng.fork();
         out.push(sigmf_case(&mut r, i, dir.path()));
+        let mut r = rng.fork();
+        out.push(sigmf_archive_case(&mut r, i, dir.path()));
     }
     out
 }
